@@ -161,9 +161,10 @@ def tripwire_table(ctx):
             for k in (0, 3):
                 name2 = names[(i + 3) % len(names)]
                 spec = ["TRIP", name, name2, role, k]
-                a = run_wl(name, name2, role, False, k)
+                pr = role == "sets-profiler"  # the program switches profiling off itself: with a profiler installed before the block
+                a = run_wl(name, name2, role, False, k, profiler=pr)
                 WL.__dict__.pop("_suspended", None)
-                b = run_wl(name, name2, role, True, k)
+                b = run_wl(name, name2, role, True, k, profiler=pr)
                 WL.__dict__.pop("_suspended", None)
                 ctx.case(spec, True, ["tripwire:" + name, "role:" + role])
                 compare(ctx, spec, a, b, role, name=name)
@@ -295,7 +296,8 @@ def run(ctx):
 def replay(ctx, case):
     if case[0] == "TRIP":
         _, name, name2, role, k = case
-        compare(ctx, case, run_wl(name, name2, role, False, k), run_wl(name, name2, role, True, k), role, name=name)
+        pr = role == "sets-profiler"
+        compare(ctx, case, run_wl(name, name2, role, False, k, profiler=pr), run_wl(name, name2, role, True, k, profiler=pr), role, name=name)
     elif case[0] == "EXITFAULT":
         _, fl, ee, pr = case
         a = run_wl("Proto", "TList", "suspended-gen", False, 0, (), False, pr, ee)
